@@ -7,7 +7,7 @@
      - a struct: BeginMap, its three fields in any order (entry shortcut or key assembler + value),
        each int assigned directly or as an int node; or AssignNode of a node that reads as a Msg3;
      - a map / list: BeginMap / BeginList with any hint, children recursively, Finish; or AssignNode of
-       a conforming node of another implementation (on the pinned generated code only an empty map);
+       a conforming node of another implementation (on the pinned generated code only an empty map or a node of its own type);
      - injected rejections, each answered by that call with the given class, after which assembly
        goes on as if the call had not been made:
          wrong-kind calls at every position (roots, map values, list elements, int fields, key
@@ -81,9 +81,9 @@ Inductive PosTry (ty : tty) : tann -> Prop :=
 | PT_wrong o : pos_wrong ty o = true -> PosTry ty (o, TSErr TEWrong).
 
 (* the pinned generated map cannot take a non-empty map node of another implementation *)
-Definition node_takes (e : engine) (q : tquirks) (ty : tty) (v : tval) : Prop :=
+Definition node_takes (e : engine) (q : tquirks) (ty : tty) (n : node) (v : tval) : Prop :=
   match ty, e with
-  | TyM _, EGen => tq_gen_map_node_panics q = false \/ v = TVM []
+  | TyM _, EGen => tq_gen_map_node_panics q = false \/ v = TVM [] \/ same_impl n = true
   | _, _ => True
   end.
 
@@ -159,7 +159,7 @@ Section Containers.
       Forall (PosTry (TyM vt)) tries -> MapBodyT [] fin body ->
       MapScriptT vt (TVM fin) (tries ++ tok (BeginMap h) :: body)
   | MST_node tries n v :
-      Forall (PosTry (TyM vt)) tries -> node_tval (TyM vt) n = Some v -> node_takes e q (TyM vt) v ->
+      Forall (PosTry (TyM vt)) tries -> node_tval (TyM vt) n = Some v -> node_takes e q (TyM vt) n v ->
       MapScriptT vt v (tries ++ [tok (AssignNode n)]).
 
   Inductive ListBodyT : list tval -> list tval -> list tann -> Prop :=
